@@ -75,8 +75,8 @@ def shards(tier):
         labels = [AXS[d][i][1] for d, i in arr]
         shape = [len(l) for l in labels]
         n = int(np.prod(shape))
-        for vk in ("f", "i", "f4", "i4"):
-            pats = _patterns(n, shape, tier) if vk == "f" else ([()] if vk in ("i", "i4") else _patterns(n, shape, "quick")[:4])
+        for vk in ("f", "i", "f4", "i4") + (("u1", "i2") if len(shape) == 1 else ()):     # unsigned / narrow integer data: 1-D only (encoding < 128)
+            pats = _patterns(n, shape, tier) if vk == "f" else ([()] if vk in ("i", "i4", "u1", "i2") else _patterns(n, shape, "quick")[:4])
             for nan in pats:
                 out.append({"s": D.spec(dims, labels, kinds, vk=vk, base=7, nan=nan, var=D.VARIANTS[k % len(D.VARIANTS)], attrs={"u": 1})})
                 k += 1
